@@ -164,10 +164,9 @@ ReadInt(b, p) == LET d == DecodeAt(b, p) IN
                  ELSE IF d.pad THEN PUnspec
                  ELSE POk(d.v, p + d.n, IF d.over THEN {"OverlongIntEncoding"} ELSE {})
 ReadRaw(b, p, n) == IF n > Len(b) - p + 1 THEN PErr("end") ELSE POk(SubSeq(b, p, p + n - 1), p + n, {})
-ReadString(b, p) == IF \E i \in p..Len(b) : b[i] = 0
-                    THEN LET z == CHOOSE i \in p..Len(b) : b[i] = 0 /\ \A j \in p..(i - 1) : b[j] # 0
-                         IN POk(SubSeq(b, p, z - 1), z + 1, {})
-                    ELSE PErr("end")
+ReadString(b, p) == IF p > Len(b) THEN PErr("end") ELSE
+                    LET k == SelectInSeq(SubSeq(b, p, Len(b)), LAMBDA x : x = 0) IN     \* first NUL at b[p + k - 1]
+                    IF k = 0 THEN PErr("end") ELSE POk(SubSeq(b, p, p + k - 2), p + k, {})
 ReadData(b, p) == LET l == ReadInt(b, p) IN
                   IF l.r # "ok" THEN l
                   ELSE IF l.v < 0 \/ l.v > Len(b) - l.p + 1 THEN PErr("end")
@@ -283,16 +282,19 @@ ParseBody(sec, mi, b, p, w0) ==
            enc |-> EncodableVals(sec, m, x.v),
            re |-> IF EncodableVals(sec, m, x.v) THEN Header(sec, m) \o ReEncBody(sec, m, x.v) ELSE <<>>]
 
-\* generic entry point for system and game messages: `msg::decode`
-ParseMsg(b) ==
+\* generic entry points for system and game messages: `msg::decode` (want = "any") and the
+\* inherent `System::decode` / `Game::decode` (decode_id, then UnknownId for the other kind)
+ParseMsgAs(want, b) ==
   LET i == ReadInt(b, 1) IN
   IF i.r # "ok" THEN i ELSE
   LET sec == IF i.v % 2 = 1 THEN "system" ELSE "game"
       ord == i.v \div 2
       u   == IF ord # 0 THEN POk(<<>>, i.p, {}) ELSE ReadRaw(b, i.p, 16)
   IN IF u.r # "ok" THEN u ELSE
+     IF want # "any" /\ want # sec THEN PErr("unknown_id") ELSE
      LET mi == Lookup(sec, ord, u.v) IN
      IF mi = 0 THEN PErr("unknown_id") ELSE ParseBody(sec, mi, b, u.p, i.w)
+ParseMsg(b) == ParseMsgAs("any", b)
 ParseConnless(b) ==
   LET h == ReadRaw(b, 1, 8) IN
   IF h.r # "ok" THEN h ELSE
@@ -307,6 +309,7 @@ ObjSizeOf(ord) == LET mi == Lookup("obj", ord, <<>>) IN
                   ELSE ObjSize(Desc.snapshot_objects[mi])
 
 ParseAny(sec, ord, uuid, b) == CASE sec = "msg" -> ParseMsg(b)
+                                 [] sec \in {"system", "game"} -> ParseMsgAs(sec, b)
                                  [] sec = "connless" -> ParseConnless(b)
                                  [] sec = "obj" -> ParseObj(ord, uuid, b)
 
